@@ -38,6 +38,7 @@ def run_and_judge(wd, label, cases, workers=12, timeout=3000):
         c.setdefault("text", [])
         c.setdefault("location", "")
         c.setdefault("rules", "[]")
+        c.setdefault("shift", 0)
     cp = os.path.join(wd, "cases-%s.ndjson" % label)
     write_ndjson(cp, cases)
     op = os.path.join(wd, "obs-%s.ndjson" % label)
